@@ -12,7 +12,7 @@ the translator fails closed.
 import importlib
 import os
 
-PARTS = ["tables", "signatures", "evalprogs", "effects"]
+PARTS = ["tables", "signatures", "evalprogs", "effects", "regex"]
 
 
 def write_if_changed(path, text):
